@@ -97,6 +97,11 @@ void on_trap(int, siginfo_t*, void* ucv) {
     if (c > 20000) uc->uc_mcontext.gregs[REG_EFL] &= ~0x100ll;   // runaway guard
 }
 
+void on_alarm_mem(int sig) {
+    if (g_jmp) { g_abort_reason = 4; siglongjmp(*g_jmp, 1); }
+    sim::on_alarm(sig);
+}
+
 inline void tf_on() { asm volatile("pushfq\n\torq $0x100,(%%rsp)\n\tpopfq" ::: "memory", "cc"); }
 inline void tf_off() { asm volatile("pushfq\n\tandq $~0x100,(%%rsp)\n\tpopfq" ::: "memory", "cc"); }
 
@@ -172,6 +177,7 @@ struct MemEngine : Engine {
         struct sigaction sa; std::memset(&sa, 0, sizeof sa); sa.sa_sigaction = on_segv; sa.sa_flags = SA_SIGINFO | SA_NODEFER;
         sigaction(SIGSEGV, &sa, nullptr); sigaction(SIGBUS, &sa, nullptr);
         sa.sa_sigaction = on_trap; sa.sa_flags = SA_SIGINFO; sigaction(SIGTRAP, &sa, nullptr);
+        { struct sigaction al; std::memset(&al, 0, sizeof al); al.sa_handler = on_alarm_mem; al.sa_flags = SA_NODEFER; sigaction(SIGALRM, &al, nullptr); }
         cpu_level = __builtin_cpu_supports("avx512bw") ? 3 : __builtin_cpu_supports("avx512f") ? 2 : __builtin_cpu_supports("avx") ? 1 : 0;
         calibrate();
         build_sweep();
@@ -295,6 +301,7 @@ struct MemEngine : Engine {
         g_nfaults = 0; g_abort_reason = 0;
         sigjmp_buf jb; bool ok = true;
         if (poison) { poison_stack(poison); tag_bytes(poison * 977u, garbage, 64); sim_poison_vector_regs(garbage, cpu_level); }
+        unsigned alarm_left = alarm(10);           // per-call limit: an operation that does not return is a violation, not a stalled batch
         if (sigsetjmp(jb, 1) == 0) {
             g_jmp = &jb;
             if (wfd_leader >= 0) { ioctl(wfd_leader, PERF_EVENT_IOC_RESET, PERF_IOC_FLAG_GROUP); ioctl(wfd_leader, PERF_EVENT_IOC_ENABLE, PERF_IOC_FLAG_GROUP); }
@@ -306,6 +313,8 @@ struct MemEngine : Engine {
             if (wfd_leader >= 0) ioctl(wfd_leader, PERF_EVENT_IOC_DISABLE, PERF_IOC_FLAG_GROUP);
         }
         g_jmp = nullptr;
+        if (!ok && g_abort_reason == 4) tf_off();
+        alarm(alarm_left ? alarm_left : 120);
         return ok;
     }
 
@@ -454,7 +463,10 @@ struct MemEngine : Engine {
         if (!ok) {
             const FaultRec& f = fr[nf ? nf - 1 : 0];
             char d[320];
-            if (abort_reason == 1) {
+            if (abort_reason == 4) {
+                std::snprintf(d, sizeof d, "%s %s form=%s n=%u: the call did not return within 10 s", op.c_str(), t->name, c.form.c_str(), c.n);
+                rr->violate("C08", stepno, {"C08", "hang", op, t->name, c.form}, d);
+            } else if (abort_reason == 1) {
                 std::snprintf(d, sizeof d, "%s %s form=%s n=%u p%%%u=%zu: general-protection fault (aligned instruction on an element-aligned pointer?) code=%s", op.c_str(), t->name, c.form.c_str(), c.n, t->vec_align, c.p % t->vec_align, hexbytes(f.code, 8).c_str());
                 rr->violate("C09", stepno, {"C09", "gp_fault", op, t->name, c.form}, d);
             } else {
@@ -567,6 +579,10 @@ struct MemEngine : Engine {
         last_pf_end = c.use_raw ? (std::size_t)-1 : c.p + bytes; last_pf_key = c.pw * 3 + c.plevel;
         if (ptr == "null") st->probes["prefetch_null_pointer"]++;
         if (bytes == 0) st->probes["prefetch_n0"]++;
+        if (!ok && abort_reason == 4) {
+            char d[200]; std::snprintf(d, sizeof d, "%s level=%d form=%s n=%zu ptr=%s: the call did not return within 10 s", opn, c.plevel, form.c_str(), c.pn, ptr.c_str());
+            rr->violate("C20", stepno, {"C20", "hang", opn, form}, d); return;
+        }
         if (!ok || nf > 0) {
             char d[260]; std::snprintf(d, sizeof d, "%s level=%d form=%s n=%zu ptr=%s: raised a signal (%s fault at %p, abort reason %d) code=%s", opn, c.plevel, form.c_str(), c.pn, ptr.c_str(), f0.write ? "write" : "read", (void*)f0.addr, abort_reason, hexbytes(f0.code, 8).c_str());
             rr->violate("C20", stepno, {"C20", "signal", opn, form}, d); if (!ok) return;
@@ -665,6 +681,7 @@ struct MemEngine : Engine {
                 // neighbour writer at EVERY instruction index of a partial store, and watch windows on partial load/store
                 // (footprint oracles: C09 only - the C08 check spends its budget on values, forms and placements)
                 if (prop == "C08") continue;
+                if (W > 1) { sweep.push_back({ti, 1, 2, (unsigned char)(W / 2), 3, 0, 2}); sweep.push_back({ti, 1, 3, (unsigned char)(W / 2 + 1 < W ? W / 2 + 1 : 1), 5, 0, 2}); }
                 if (W > 1) { unsigned ns[3] = {1, W / 2, W - 1};
                     for (unsigned k = 0; k < 3; ++k) { sweep.push_back({ti, 1, 0, (unsigned char)ns[k], 3, 0, 2}); sweep.push_back({ti, 1, 1, (unsigned char)ns[k], 5, 0, 2});
                         sweep.push_back({ti, 0, 0, (unsigned char)ns[k], 3, 0, 1}); sweep.push_back({ti, 1, 0, (unsigned char)ns[k], 3, 0, 1}); } }
